@@ -1151,7 +1151,23 @@ def execute(trace, ctx):
     check_c09_end(trace, ctx, watch, info)
     final1 = _final(trace, ali, info)
     if trace.get("second") and trace["mode"] == "align":
-        _second_round(trace, ctx, ali, start_fixed, tree_mobile, deform, mobile_spec, restr)
+        held = (ali.start, ali.end)      # the aligned molecules of the FIRST alignment stay with the caller ...
+        ali_b = _second_round(trace, ctx, ali, start_fixed, tree_mobile, deform, mobile_spec, restr)
+        # ... and no later alignment may move them: one on ANOTHER Alignment object moves neither, one on this object after a
+        # re-assignment does not move the molecule that was replaced
+        for which, mol_, f1 in zip(("start", "end"), held, final1):
+            if ali_b is None or (ali_b is ali and (mol_ is ali.start or mol_ is ali.end)):
+                continue
+            try:
+                now_ = np.array(mol_.atoms_positions)
+            except Exception as e:
+                now_ = None
+            if now_ is None or now_.shape != f1.shape or not np.array_equal(now_, f1):
+                dev_ = float("nan") if now_ is None or now_.shape != f1.shape else float(np.max(np.abs(now_ - f1)))
+                ctx.violate("C06", "outcome-changed-later", f"the {which} molecule of a finished alignment moved by {dev_:.3e} nm "
+                                                            f"when ANOTHER alignment ran later (its outcome is no longer the one "
+                                                            f"its inputs and seed determine)")
+                break
     # ---- repeat: the outcome is a deterministic function of inputs and seed ---------------------------
     ali2, _, outcome2, info2, _ = run(False)
     final2 = _final(trace, ali2, info2)
@@ -1186,10 +1202,18 @@ def _second_round(trace, ctx, ali, start_fixed, tree_mobile, deform, mobile_spec
         mobile_spec = spec
         ctx.probe("mobile_molecule_reassigned_with_another_bond_graph")
     try:
-        setattr(ali, mob_key, gen.make_molecule(spec, positions=new.tolist()))
-        if sec.get("also_fixed"):
+        if sec["seed"] % 3 == 0:
+            # ... or ANOTHER Alignment object of the same species is built and aligned while the first one is still in use
             fs = trace[fix_key]
-            setattr(ali, fix_key, gen.make_molecule(fs, positions=(np.array(fs["positions"]) + np.array([0.3, -0.2, 0.1])).tolist()))
+            mols_ = {mob_key: gen.make_molecule(spec, positions=new.tolist()),
+                     fix_key: gen.make_molecule(fs, positions=(np.array(fs["positions"]) + np.array([0.3, -0.2, 0.1])).tolist())}
+            ali = Alignment(start=mols_["start"], end=mols_["end"])
+            ctx.probe("another_alignment_object_of_the_same_species")
+        else:
+            setattr(ali, mob_key, gen.make_molecule(spec, positions=new.tolist()))
+            if sec.get("also_fixed"):
+                fs = trace[fix_key]
+                setattr(ali, fix_key, gen.make_molecule(fs, positions=(np.array(fs["positions"]) + np.array([0.3, -0.2, 0.1])).tolist()))
     except Exception as e:
         ctx.violate("C06", "reassignment-refused", f"re-assigning another conformation of the same molecule raised {type(e).__name__}: {e}")
         return
@@ -1210,6 +1234,7 @@ def _second_round(trace, ctx, ali, start_fixed, tree_mobile, deform, mobile_spec
         Alignment.STEPS_FACTOR, Alignment.SIGMA_SCALE = old_sf, old_ss
     ctx.probe("second_alignment_after_reassignment")
     check_c06(trace, ctx, ali, ini_s, ini_e, start_fixed, tree_mobile, deform, mobile_spec)
+    return ali
 
 
 class _NullCtx:
